@@ -10,6 +10,8 @@ C10-d  rendering: the trailing-comma removal output[loc-1] needs loc > 0 (empty 
 C10-e  an inclusive end start + len - 1 needs len > 0 (zero-length missing chunk)  [known finding].
 C10-f  rendering: the grow-and-retry path re-renders the same entry (the list cursor is not advanced
        between the truncation test and the retry).
+C10-g  the limit test of zck_get_missing_range can stop the walk only after range_add() succeeded in the same
+       iteration (at least one range when something is missing, also for a limit of 0).
 Declined: union/sortedness/non-adjacency after merging and the limit semantics (list algorithm over all
 validity vectors).
 """
@@ -17,7 +19,7 @@ from ..flow import M1, NEG, Z, P1, POS, POSITIVE, TOP, NONNEG, mask_str
 from ..ir import strip, strip_transparent, show, callee_name, const_value, walk, walk_stmts, calls_in
 from ..program import rel, all_exprs, unique_defs
 from ..rules.common import (FactRule, SymRule, GuardRule, run_rule, call_name, calls_of, pstr, last_field, Lin, lin,
-                            atom_cmp, origin_names)
+                            atom_cmp, origin_names, CMP_FLIP)
 
 
 class RenderRule(SymRule):
@@ -165,6 +167,55 @@ def run(ctx):
               path=sk.violations[0].path if sk.violations else None, config=config)
         from ..rules import extra
         extra.check_range_purity(ck, prog, config, 'C10-a')
+        # ---- g  the limit can stop the walk only after something was added in this iteration
+
+        class Limit(FactRule):
+            name = 'R2.limit-after-add'
+
+            def __init__(s, prog, fn):
+                FactRule.__init__(s, prog, fn)
+                s.tests = 0
+                s.params = set(p_.op for p_ in fn.params)
+
+            def on_node(s, c2, node, ts):
+                if c2.fn is s.fn and node.loop is not None:
+                    ts = ts - frozenset(['added'])
+                return ts
+
+            def on_edge(s, c2, node, label, refined, ts):
+                if c2.fn is not s.fn:
+                    return ts
+                for expr, origins, before, after in refined:
+                    if 'range_add' in origin_names(origins) and after & Z == 0:
+                        ts = ts | frozenset(['added'])
+                op, l, r = atom_cmp(node.e, label)
+                sides = [(l, r, op), (r, l, CMP_FLIP.get(op, op))]
+                for a, b, o in sides:
+                    if last_field(a) == 'count' and o in ('>=', '>', '=='):
+                        sb = strip(b)
+                        if sb is not None and sb.k == 'var' and const_value(b) is None:
+                            s.tests += 1
+                            if 'added' not in ts:
+                                if sb.op not in s.params:
+                                    s.violate(c2, 'derived-limit', 'the range count is compared with %s before anything '
+                                              'was added in this iteration; the analysis cannot bound a derived limit '
+                                              'from below' % sb.op, inst='derived-limit')
+                                else:
+                                    s.violate(c2, 'limit-before-add', 'the walk can stop on "%s" before range_add() was '
+                                              'reached in this iteration: with a limit of 0 (legal, means one range) '
+                                              'nothing is requested although chunks are missing' % show(node.e),
+                                              inst='limit')
+                return ts
+        lm = Limit(prog, mr)
+        run_rule(prog, mr, lm)
+        ck.require(lm.tests >= 1, 'zck_get_missing_range: limit test on the range count not found')
+        derived = [v for v in lm.violations if v.kind == 'derived-limit']
+        ck.require(not derived, 'zck_get_missing_range: ' + (derived[0].msg if derived else ''))
+        ck.ob('C10-g', 'R2.limit-after-add', mr.name, 'limit', not lm.violations,
+              'the limit test stops the walk only after range_add() succeeded in the same iteration: at least one '
+              'range whenever a chunk is missing (%d edge state(s))' % lm.tests if not lm.violations else
+              lm.violations[0].msg, mr.file, lm.violations[0].node.line if lm.violations else mr.line,
+              path=lm.violations[0].path if lm.violations else None, config=config)
         # ---- b
         ra = prog.need_func('range_add')
         subst = unique_defs(ra)
